@@ -442,7 +442,13 @@ func (self Value) getByPath(pathes ...Path) (Value, []int) {
 		if err != nil {
 			// the last one not foud, return start pointer for subsequently inserting operation on `SetByPath()`
 			if i == len(pathes)-1 && err == errNotFound {
-				return Value{errNotFoundLast(unsafe.Pointer(uintptr(self.v)+uintptr(start)), tt), nil, false}, address
+				// the very end of the buffer is recorded as nil (see Node.replace): a pointer to it would lie outside the
+				// allocation when the buffer fills it exactly, and the garbage collector aborts on such a pointer
+				var pos unsafe.Pointer
+				if start < self.l {
+					pos = unsafe.Pointer(uintptr(self.v) + uintptr(start))
+				}
+				return Value{errNotFoundLast(pos, tt), nil, false}, address
 			}
 			return errValue(errBehavior(err), "invalid value node.", err), address
 		}
